@@ -17,17 +17,21 @@ func zzVrf(name string) vconfig.VRFValue {
 	return v
 }
 
+func zzTable(n int) []uint32 {
+	table := make([]uint32, n)
+	for i := range table {
+		table[i] = zzsym.U32("pos")
+	}
+	return table
+}
+
 // calcParticipant for a fully symbolic 64-byte seed, a symbolic draw index k and every table length 1..L with
 // symbolic content: never indexes out of range (a panic is a violation), answers the sentinel exactly for
 // k >= 512 and otherwise an element of the position table; the same inputs give the same answer.
 func ZZ_C40_CalcParticipant() {
 	vrf := zzVrf("vrf")
 	k := zzsym.U32("k")
-	n := 1 + zzsym.Choose("tablelen", zzsym.Param("L"))
-	table := make([]uint32, n)
-	for i := range table {
-		table[i] = zzsym.U32("pos")
-	}
+	table := zzTable(1 + zzsym.Choose("tablelen", zzsym.Param("L")))
 	got := calcParticipant(vrf, table, k)
 	if k >= 512 {
 		zzsym.Assert(got == math.MaxUint32, "draw indices beyond the 512 seed bits give the sentinel")
@@ -38,17 +42,26 @@ func ZZ_C40_CalcParticipant() {
 			in = zzOr(in, got == id)
 		}
 		zzsym.Assert(in, "the drawn participant is an entry of the position table")
-		// the 16-bit window that starts at bit k of the seed (wrapping to byte 0 after the last byte), i.e. its
-		// upper 16-(k%8) bits, reduced modulo the table length, selects the entry
-		lo := uint32(vrf[k/8])
-		hi := uint32(vrf[(k/8+1)%vconfig.VRF_SIZE])
-		b := uint32(zzsym.Concretize(int(k%8), 7)) // fork over the bit offset: shifts by constants are cheap to decide
-		w := (hi<<8 | lo) >> b
-		zzsym.Assert(got == table[w%uint32(n)], "the entry is selected by the seed bits starting at bit k, modulo the table length")
 		zzsym.Cover("drawn")
 	}
 	zzsym.Assert(calcParticipant(vrf, table, k) == got, "equal inputs give equal selections")
 	zzsym.Cover("calc-done")
+}
+
+// Which entry: for every draw index k < 512 (explored value by value) the 16-bit window that starts at bit k of
+// the seed (wrapping to byte 0 after the last byte) selects the entry - its upper 16-(k%8) bits, reduced modulo
+// the table length.
+func ZZ_C40_CalcWindow() {
+	vrf := zzVrf("vrf")
+	k := uint32(zzsym.Choose("k", 512))
+	n := 1 + zzsym.Choose("tablelen", zzsym.Param("L"))
+	table := zzTable(n)
+	got := calcParticipant(vrf, table, k)
+	lo := uint32(vrf[k/8])
+	hi := uint32(vrf[(k/8+1)%vconfig.VRF_SIZE])
+	w := (hi<<8 | lo) >> (k % 8)
+	zzsym.Assert(got == table[w%uint32(n)], "the entry is selected by the seed bits starting at bit k, modulo the table length")
+	zzsym.Cover("window-done")
 }
 
 func ZZ_C40_CalcParticipant_witness() {
